@@ -233,6 +233,27 @@ impl Property for C17 {
         obs.label(format!("prepared-type:{}", c.p.type_name()));
         let gp = to_geo(&c.p, &c.xf);
         let gqs: Vec<Geometry<f64>> = c.partners.iter().map(|q| to_geo(q, &c.xf)).collect();
+        // the owning constructor, the accessors, and a prepared partner of concrete type
+        let extra = guard(std::panic::AssertUnwindSafe(|| {
+            let mut o = Obs::new();
+            let owned: PreparedGeometry<'static, Geometry<f64>, f64> = PreparedGeometry::from(gp.clone());
+            o.expect(owned.geometry() == &gp, "prepared|geometry()-differs", || format!("P={}", wkt(&c.p)));
+            let q = &gqs[0];
+            let plain = matrix_of(&gp.relate(q));
+            let via_owned = matrix_of(&owned.relate(q));
+            o.expect(via_owned == plain, "prepared-relate|owned-differs-from-plain", || format!("{} vs {}; P={} Q={}", via_owned.to_string9(), plain.to_string9(), wkt(&c.p), wkt(&c.partners[0])));
+            let via_conc = with_concrete!(q, qc => { let pq = PreparedGeometry::from(qc); (matrix_of(&gp.relate(&pq)), matrix_of(&owned.relate(&pq))) });
+            o.expect(via_conc.0 == plain && via_conc.1 == plain, "prepared-relate|concrete-prepared-partner-differs", || format!("{} / {} vs {}; P={} Q={}", via_conc.0.to_string9(), via_conc.1.to_string9(), plain.to_string9(), wkt(&c.p), wkt(&c.partners[0])));
+            o.expect(owned.into_geometry() == gp, "prepared|into_geometry()-differs", || format!("P={}", wkt(&c.p)));
+            o
+        }));
+        match extra {
+            Ok(o) => {
+                obs.comparisons += o.comparisons;
+                obs.failures.extend(o.failures);
+            }
+            Err(p) => obs.fail(format!("prepared-relate|panic|{}", p.site()), format!("{} P={} partners={:?}", p, wkt(&c.p), c.partners.iter().map(wkt).collect::<Vec<_>>())),
+        }
         let r = guard(std::panic::AssertUnwindSafe(|| {
             let mut o = Obs::new();
             if c.concrete {
